@@ -50,6 +50,7 @@ Section Cache.
   (* regenerated from update_file_futures_and_memory: *)
   Variable oversize_uncached : bool.   (* can_cache = memory_usage <= max_memory and recover_memory(...) *)
   Variable uncached_purges : bool.     (* the not-cached branch also removes the file's access-time item *)
+  Variable task_failure_forgets : bool. (* tasks run through _run_task: a failing load/write removes its entry and heap item *)
 
   Inductive node := File (c : C) | Dir.
   Definition disk := list (name * node).
@@ -236,7 +237,18 @@ Section Cache.
                         | _ => ne end) (c_entries s))
         (c_heap s) (c_mem s) (c_max s).
 
+  (* _run_task's error path: pop the entry, drop its access-time item, subtract nothing *)
+  Definition forget (s : cache) (n : name) : cache :=
+    mkC (c_disk s) (aremove (c_entries s) n) (heap_without (c_heap s) n) (c_mem s) (c_max s).
+
   Definition fres_of (r : C + exc) : fres := match r with inl c => FOk c | inr e => FErr e end.
+
+  (* the task is over: its future completes; a failed task forgets its entry (if the code runs it through _run_task) *)
+  Definition finish_task (s : cache) (n : name) (r : C + exc) : cache :=
+    match r with
+    | inr _ => if task_failure_forgets then forget s n else resolve s (fres_of r)
+    | inl _ => resolve s (fres_of r)
+    end.
 
   (* _load_file, run by a worker *)
   Definition load_task (s : cache) (n : name) (t : Z) (ch : list name) : cache * (C + exc) :=
@@ -280,7 +292,7 @@ Section Cache.
           | None =>
               let s1 := set_entry s n (mkE false claim FPending) in
               let '(s2, r) := load_task s1 n t ch in
-              (resolve s2 (fres_of r), r)
+              (finish_task s2 n r, r)
           | Some info =>
               (* sequentially the future is done *)
               (touch s n t,
@@ -299,7 +311,7 @@ Section Cache.
         if claim >? c_max s then (s, inr MemoryErr)
         else
           match assoc (c_entries s) n with
-          | None => (resolve (set_entry s n (mkE false claim FPending)) (FErr e), inr e)
+          | None => (finish_task (set_entry s n (mkE false claim FPending)) n (inr e), inr e)
           | Some _ => get_file s n t ch
           end
     end.
@@ -317,7 +329,7 @@ Section Cache.
       if fresh then
         let s1 := set_entry (unload_ s n) n (mkE true claim FPending) in
         let '(s2, r) := write_task s1 n c t ch in
-        (resolve s2 (fres_of r), match r with inl _ => inl true | inr e => inr e end)
+        (finish_task s2 n r, match r with inl _ => inl true | inr e => inr e end)
       else
         (s, match assoc (c_entries s) n with
             | Some info => match e_fut info with FErr e => inr e | _ => inl false end
@@ -395,6 +407,14 @@ Section Cache.
         (s2, x :: xs)
     end.
 
+  (* results of fault operations are not part of the dictionary's answers (whether the fault is hit depends on caching) *)
+  Definition is_fault (o : op) : bool := match o with OGetFault _ _ _ _ => true | _ => false end.
+  Fixpoint mask (ops : list op) (xs : list res) : list res :=
+    match ops, xs with
+    | o :: r, x :: ys => (if is_fault o then RNone else x) :: mask r ys
+    | _, _ => []
+    end.
+
   Definition op_name (o : op) : option name :=
     match o with OSet n _ _ _ | OGet n _ _ | OUnload n | OGetFault n _ _ _ => Some n | OReopen _ => None end.
 End Cache.
@@ -466,7 +486,7 @@ Section Tables.
   Variable flen : frame -> Z.
   Variable fmem : frame -> Z.
   Variable dirsize : Z.
-  Variable ou pu : bool.
+  Variable ou pu tf : bool.
   Variable copies : bool.   (* regenerated: TableStorage.get hands out a COPY of the cached DataFrame (Table.__init__ copies) *)
 
   Definition tcache := cache frame.
@@ -475,7 +495,7 @@ Section Tables.
 
   (* PandasDataFrameCache.update (t1: clock reading of the get, t2: of the update) *)
   Definition tbl_set (s : tcache) (n : name) (new : frame) (t1 t2 : Z) (ch1 ch2 : list name) : tcache * tres :=
-    let '(s1, g) := get_file frame flen fmem dirsize ou pu s n t1 ch1 in
+    let '(s1, g) := get_file frame flen fmem dirsize ou pu tf s n t1 ch1 in
     let merged :=
       match g with
       | inl old => inl (merge_frames old new)
@@ -485,7 +505,7 @@ Section Tables.
     match merged with
     | inr e => (s1, TErr e)
     | inl df =>
-        match update_file frame flen fmem ou pu s1 n df t2 ch2 with
+        match update_file frame flen fmem ou pu tf s1 n df t2 ch2 with
         | (s2, inl true) => (s2, TSet)
         | (s2, inl false) => (s2, TErr KeyErr)      (* retry loop: not reachable sequentially *)
         | (s2, inr e) => (s2, TErr e)
@@ -494,7 +514,7 @@ Section Tables.
 
   (* TableStorage.get = get_dataframe(default_empty=False) *)
   Definition tbl_get (s : tcache) (n : name) (t : Z) (ch : list name) : tcache * tres :=
-    match get_file frame flen fmem dirsize ou pu s n t ch with
+    match get_file frame flen fmem dirsize ou pu tf s n t ch with
     | (s1, inl f) => (s1, TVal f)
     | (s1, inr FileNotFound) => (s1, TUndef)
     | (s1, inr e) => (s1, TErr e)
@@ -570,13 +590,13 @@ Section Sessions.
   Variable C : Type.
   Variable clen cmem : C -> Z.
   Variable dirsize : Z.
-  Variable ou pu catches : bool.
+  Variable ou pu tf catches : bool.
 
   Fixpoint sessions_run (d : disk C) (ss : list (Z * list (op C))) : disk C * list (list (res C)) :=
     match ss with
     | [] => (d, [])
     | (mx, ops) :: r =>
-        let '(s, xs) := kvs_run C clen cmem dirsize ou pu catches (open_cache C d mx) ops in
+        let '(s, xs) := kvs_run C clen cmem dirsize ou pu tf catches (open_cache C d mx) ops in
         let '(d', ys) := sessions_run (c_disk C s) r in
         (d', xs :: ys)
     end.
@@ -588,5 +608,10 @@ Section Sessions.
         let '(s, xs) := spec_run C clen (mkS C m (if Z.eqb mx 0 then default_max else mx)) ops in
         let '(m', ys) := spec_sessions (s_map C s) r in
         (m', xs :: ys)
+    end.
+  Fixpoint mask_sessions (ss : list (Z * list (op C))) (rs : list (list (res C))) : list (list (res C)) :=
+    match ss, rs with
+    | (_, ops) :: r, x :: ys => mask C ops x :: mask_sessions r ys
+    | _, _ => []
     end.
 End Sessions.
